@@ -33,6 +33,14 @@ func (fr *Frame) execCall(st *State, c *ssa.CallCommon, res ssa.Value, pos token
 			fr.setResult(res, out)
 			return
 		}
+		if impls := v.eng.closedImpls(c); impls != nil {
+			ms := newModSet()
+			v.eng.callMods(c, ms, nil)
+			v.smt.note("invoke " + c.Method.FullName() + ": closed-world interface, frame = union of the frames of its " + fmt.Sprint(len(impls)) + " loaded implementations; result unconstrained")
+			v.havocKeys(st, ms)
+			fr.freshResult(st, c, res)
+			return
+		}
 		fr.havocCall(st, c, res, "interface method "+c.Method.FullName())
 		return
 	}
@@ -295,7 +303,7 @@ func (e *Engine) inlinable(f *ssa.Function) bool {
 		}
 		for _, in := range b.Instrs {
 			switch in.(type) {
-			case *ssa.Go, *ssa.Select, *ssa.MakeClosure:
+			case *ssa.Go, *ssa.MakeClosure:
 				return false
 			}
 		}
@@ -653,10 +661,34 @@ func (fr *Frame) siteAssertsCall(st *State, c *ssa.CallCommon, args []Val, pos t
 	}
 	for _, as := range v.fc.Asserts {
 		w := strings.Fields(as.Site)
-		if len(w) != 2 || w[0] != "call" || w[1] != callee {
+		if len(w) != 2 || w[0] != "call" {
 			continue
 		}
+		want, field := w[1], ""
+		if i := strings.Index(want, "("); i >= 0 && strings.HasSuffix(want, ")") {
+			field = want[i+1 : len(want)-1]
+			want = want[:i]
+		}
+		if want != callee {
+			continue
+		}
+		if field != "" {
+			// the receiver must be the address of the named field
+			if len(c.Args) == 0 {
+				continue
+			}
+			fa, ok := c.Args[0].(*ssa.FieldAddr)
+			if !ok {
+				continue
+			}
+			_, sT := namedStruct(deref(fa.X.Type()))
+			if sT == nil || sT.Field(fa.Field).Name() != field {
+				continue
+			}
+		}
 		env := fr.specEnv(st, nil)
+		env.retBlock = fr.curBlock
+		env.atSite = true
 		all := args
 		if c.IsInvoke() {
 			all = append([]Val{fr.val(c.Value)}, args...)
@@ -762,12 +794,67 @@ func (fr *Frame) execNext(st *State, x *ssa.Next) {
 	fr.vals[x] = Val{Tuple: []Val{{T: ok}, {T: key}, {T: val}}}
 }
 
+// Channels: a send has no effect on the modelled heap (the receiver runs in another goroutine);
+// a select is a nondeterministic choice among its cases (default only when non-blocking).
 func (fr *Frame) execSend(st *State, x *ssa.Send) {
-	fr.v.unsupported("channel send in %s", fr.fn)
+	fr.v.smt.note("channel send: no effect on the modelled state (delivery is outside sequential reasoning)")
+	fr.siteAssertsNamed(st, "send", x.Pos())
 }
 
 func (fr *Frame) execSelect(st *State, x *ssa.Select) {
-	fr.v.unsupported("select in %s", fr.fn)
+	v := fr.v
+	idx := v.smt.fresh(fr.name(x)+".idx", "Int")
+	lo := "0"
+	if !x.Blocking {
+		lo = "(- 1)"
+	}
+	v.smt.assert(and("(<= "+lo+" "+idx+")", fmt.Sprintf("(< %s %d)", idx, len(x.States))))
+	out := []Val{{T: idx}, {T: v.smt.fresh(fr.name(x)+".ok", "Bool")}}
+	for i, sc := range x.States {
+		if sc.Dir == types.RecvOnly {
+			t := sc.Chan.Type().Underlying().(*types.Chan).Elem()
+			n := v.smt.fresh(fmt.Sprintf("%s.recv%d", fr.name(x), i), v.smt.sortOf(t))
+			v.smt.assert(v.closedFact(n, t, v.alloc(st), 0))
+			out = append(out, Val{T: n})
+		}
+	}
+	// ghost: number of values received from each channel so far
+	for i, sc := range x.States {
+		if sc.Dir == types.RecvOnly {
+			fr.countRecv(st, fr.term(st, sc.Chan), fmt.Sprintf("(= %s %d)", idx, i))
+		}
+	}
+	v.smt.note("select: nondeterministic choice among the cases; received values unconstrained")
+	fr.vals[x] = Val{Tuple: out}
+}
+
+// countRecv: ghost counter nrecv[ch] += 1 when cond holds.
+func (fr *Frame) countRecv(st *State, ch, cond string) {
+	v := fr.v
+	k := v.ghostKey("nrecv", "(Array Int Int)")
+	h := v.heap(st, k)
+	v.setHeap(st, k, ite(cond, sto(h, ch, "(+ 1 "+sel(h, ch)+")"), h))
+}
+
+// siteAssertsNamed: site assertions of the form "at <kind>" without a callee (e.g. "at send").
+func (fr *Frame) siteAssertsNamed(st *State, kind string, pos token.Pos) {
+	v := fr.v
+	if v.fc == nil || !fr.top {
+		return
+	}
+	for _, as := range v.fc.Asserts {
+		if strings.TrimSpace(as.Site) != kind {
+			continue
+		}
+		env := fr.specEnv(st, nil)
+		env.retBlock = fr.curBlock
+		env.atSite = true
+		g, extra := env.boolTerm(as.Cl.Expr)
+		v.siteCount["assert."+as.Label]++
+		o := v.addObl(st, "assert", fmt.Sprintf("%s#%d", as.Label, v.siteCount["assert."+as.Label]), g, as.Cl.Text, pickProps(as.Cl, v.fc.Serves), pos)
+		o.Extra = extra
+		v.assertHits[as.Label]++
+	}
 }
 
 func (v *FnVerifier) noMonitor() bool { return v.fc != nil && v.fc.Opts["nomonitor"] != "" }
